@@ -156,13 +156,17 @@ Definition fimo (c : call) : outcome := fimo_gen starts passes pmap c.
 
 (* the same with C11's table computed by the fast evaluator (equal: Proofs.fimo_fast_eq);
    this is what vm_compute runs on the correspondence cases *)
+(* [map (fun i => fast_ge_from tl base (sm + i)) (seq 0 n)] in linear time: the total below
+   the lowest score, then the tail list, then zeros (equal: Proofs.table_lin_eq) *)
+Definition table_lin (tl : list Z) (base sm : Z) (n : nat) : list Z :=
+  if sm <=? base then
+    firstn n (repeat (hd 0 tl) (Z.to_nat (base - sm)) ++ tl ++ repeat 0 n)
+  else map (fun i => fast_ge_from tl base (sm + Z.of_nat i)) (seq 0 n).
+
 Definition pmap_fast (M : imat) : res (Z * list Z) :=
   match M with
   | [] => Err
-  | _ => let tl := fast_tail M in
-         let base := sum_min M in
-         let sm := smallest M in
-         Ok (sm, map (fun i => fast_ge_from tl base (sm + Z.of_nat i)) (seq 0 (tlen M)))
+  | _ => Ok (smallest M, table_lin (fast_tail M) (sum_min M) (smallest M) (tlen M))
   end.
 Definition fimo_fast (c : call) : outcome := fimo_gen starts passes pmap_fast c.
 
